@@ -13,7 +13,7 @@ RULE = ("every valid tableau N=1, a stride over all 34560 valid N=2 tableaux, ra
         "outside the region; non-trivial = subsystem neither empty nor everything and state not a product of its cut")
 ASSUMPTIONS = ["two oracles cross-checked on every dense-size case: eigenvalues of the partial trace, and |A| - dim G_A via own GF(2) rank"]
 REQUIRED_SUBS = ["ent.dense", "ent.gf2", "ent.mask_vs_index", "ent.empty", "ent.full", "ent.complement", "ent.regauge",
-                 "ent.local_inside", "ent.local_outside"]
+                 "ent.local_inside", "ent.local_outside", "live.ent"]
 REQUIRED_CALLS = ["StabilizerState.entropy"]
 
 
@@ -26,6 +26,8 @@ def shards(tier):
         {"name": "rand.np.jit", "mode": "jit", "backend": "np", "fn": "rand", "n": 250 if q else 12000, "big": 150 if q else 20000},
         {"name": "rand.np.interp", "mode": "interp", "backend": "np", "fn": "rand", "n": 60 if q else 1500, "big": 10 if q else 300},
         {"name": "rand.torch", "mode": "jit", "backend": "torch", "fn": "rand", "n": 40 if q else 1500, "big": 10 if q else 500},
+        {"name": "live.np.jit", "mode": "jit", "backend": "np", "fn": "live", "n": 40 if q else 2500},
+        {"name": "live.torch", "mode": "jit", "backend": "torch", "fn": "live", "n": 10 if q else 400},
     ]
     if not q:
         for k in range(4):
@@ -198,3 +200,22 @@ def run_rand(shard, rec, B):
         tg, tp, _ = O.random_tableau(rng, N, r=r, nrot=4 * N)
         subs = [gen.rand_subset(rng, N) for _ in range(4)] + [list(range(N // 2))]
         check_state(rec, B, tg, tp, r, subs, rng, dense=False, extras=(t % 3 == 0))
+
+
+def run_live(shard, rec, B):
+    """entropies re-asked of one live state object after every in-place operation of a history."""
+    from .. import live
+    rng = gen.rng_for(rec)
+    for t in range(shard["n"]):
+        N = int(rng.integers(2, 7))
+
+        def query(S, G, hist, step):
+            for _ in range(2):
+                A = gen.rand_subset(rng, N, int(rng.integers(1, N + 1)))
+                sg = np.stack([g for g, _ in G.gens]) if G.gens else np.zeros((0, 2 * N), dtype=np.int64)
+                want = O.entropy_gf2(sg, N, A)
+                case = {"N": N, "history": hist[-6:], "A": A}
+                ok, x = rec.attempt("live.ent", case, lambda: S.entropy(list(A)))
+                if ok:
+                    rec.check("live.ent", abs(_val(B, x) - want) < 1e-6, case, 0 < len(A) < N, expected=want, observed=_val(B, x))
+        live.walk(rec, B, rng, N, int(rng.integers(4, 16)), query)
